@@ -97,14 +97,17 @@ Print Assumptions C19_relaxed_total.
 
 (** (3) Wrapper invariance, for ALL forests: a node [S] placed under any number of mapping levels (any key),
     sequence levels (not directly under a `groups` key; items on the path and their siblings are not rules
-    themselves) and document/alias levels, with siblings that contain no rules, yields exactly the rules
-    found in [S] itself — nothing lost, nothing added, same order, same lines (the coordinates of [S] are
-    the ones yaml.v3 reports inside the wrapped document). *)
+    themselves), document/alias levels and YAML-in-YAML levels (a literal block scalar whose value pint re-parses,
+    e.g. a Kubernetes ConfigMap `data: rules.yaml: |`), with siblings that contain no rules, yields exactly the
+    rules found in [S] itself — nothing lost, nothing added, same order, same lines.  The coordinates of [S] are the
+    ones yaml.v3 reports inside the wrapped document; below a YAML-in-YAML level the hole is parsed against the
+    lines of the scalar's VALUE with the scalar's own line added to the line offset ([linesS], [offS]), which is how
+    pint maps embedded rules back to file lines. *)
 Theorem C19_wrapper_invariance :
-  forall plines metric_ok lname_ok lvalue_ok lines off S pS m parent,
-    wrapper plines metric_ok lname_ok lvalue_ok lines off S pS m parent ->
+  forall plines metric_ok lname_ok lvalue_ok linesS offS S pS lines off m parent,
+    wrapper plines metric_ok lname_ok lvalue_ok linesS offS S pS lines off m parent ->
     forall f1 f2 gsS gs,
-      parse_node plines metric_ok lname_ok lvalue_ok f1 lines off S pS None = Some gsS ->
+      parse_node plines metric_ok lname_ok lvalue_ok f1 linesS offS S pS None = Some gsS ->
       parse_node plines metric_ok lname_ok lvalue_ok f2 lines off m parent None = Some gs ->
       all_rules gs = all_rules gsS.
 Proof. exact wrapper_invariance. Qed.
@@ -112,10 +115,10 @@ Print Assumptions C19_wrapper_invariance.
 
 (** ... including extra documents before and after, at the level of Parser.Parse. *)
 Theorem C19_wrapper_invariance_file :
-  forall plines metric_ok lname_ok lvalue_ok all_lines yerr before m nl after S pS f1 gsS,
+  forall plines metric_ok lname_ok lvalue_ok all_lines yerr before m nl after linesS offS S pS f1 gsS,
     (forall x k, In (x, k) (before ++ after) -> no_rules_in plines metric_ok lname_ok lvalue_ok (firstn k all_lines) 0 x None) ->
-    wrapper plines metric_ok lname_ok lvalue_ok (firstn nl all_lines) 0 S pS m None ->
-    parse_node plines metric_ok lname_ok lvalue_ok f1 (firstn nl all_lines) 0 S pS None = Some gsS ->
+    wrapper plines metric_ok lname_ok lvalue_ok linesS offS S pS (firstn nl all_lines) 0 m None ->
+    parse_node plines metric_ok lname_ok lvalue_ok f1 linesS offS S pS None = Some gsS ->
     exists f, parse_relaxed plines metric_ok lname_ok lvalue_ok all_lines (before ++ (m, nl) :: after) yerr = Some f /\
               all_rules (f_groups f) = all_rules gsS.
 Proof. exact wrapper_invariance_file. Qed.
@@ -153,3 +156,32 @@ Example C19_nonvacuous :
    List.length (all_rules (f_groups s)) = 1 /\
    exists f, parse_relaxed pl0 yes yes yes [] [(ex_strict, 0)] None = Some f /\ all_rules (f_groups f) = all_rules (f_groups s)).
 Proof. vm_compute. split; [eexists; split; reflexivity|]. repeat split. eexists. split; reflexivity. Qed.
+
+(** Non-vacuity of the YAML-in-YAML wrapper level: a ConfigMap-style document whose literal block scalar holds a rule
+    list; the rule is found at file lines 3-4 (= line inside the value + line of the scalar), and the document is a
+    [wrapper] around the embedded rule list (so [C19_wrapper_invariance] applies to it). *)
+Definition cm_value : string := "- record: a:b" ++ nls ++ "  expr: up" ++ nls.
+Definition cm_lines : list string := ["data:"; "  rules.yaml: |"; "    - record: a:b"; "      expr: up"].
+Definition cm_inner : node :=
+  Sq "!!seq" 1 1 4 [Mp "!!map" 1 3 4 [Sc "!!str" "record" 1 3 23; Sc "!!str" "a:b" 1 11 23; Sc "!!str" "expr" 2 3 23; Sc "!!str" "up" 2 9 23]].
+Definition cm_embedded : node := Dc 1 1 4 [cm_inner].
+Definition cm_scalar : node := ScE "!!str" cm_value 2 15 0 cm_embedded.
+Definition cm_key : node := Sc "!!str" "rules.yaml" 2 3 6.
+Definition cm_data : node := Mp "!!map" 2 3 4 [cm_key; cm_scalar].
+Definition cm_top : node := Mp "!!map" 1 1 4 [Sc "!!str" "data" 1 1 23; cm_data].
+Definition ex_configmap : node := Dc 1 1 4 [cm_top].
+
+Example C19_nonvacuous_embedded :
+  (exists f, parse_relaxed pl0 yes yes yes cm_lines [(ex_configmap, 4)] None = Some f /\
+             map (fun r => match r_body r with Recording n e _ => (y_value n, y_value e, r_first r, r_last r) | _ => ("", "", 0, 0) end)
+                 (all_rules (f_groups f)) = [("a:b", "up", 3, 4)]) /\
+  wrapper pl0 yes yes yes (split_lines cm_value) 2 cm_inner (Some cm_embedded) cm_lines 0 ex_configmap None.
+Proof.
+  split; [vm_compute; eexists; split; reflexivity|].
+  apply (W_other _ _ _ _ _ _ _ _ cm_lines 0 ex_configmap None cm_top [] []); [|left; reflexivity|reflexivity|intros x []].
+  apply (W_map _ _ _ _ _ _ _ _ cm_lines 0 cm_top _ (Sc "!!str" "data" 1 1 23) cm_data [] []); [|reflexivity|reflexivity|intros k v []].
+  apply (W_map _ _ _ _ _ _ _ _ cm_lines 0 cm_data _ cm_key cm_scalar [] []); [|reflexivity|reflexivity|intros k v []].
+  apply (W_embedded _ _ _ _ _ _ _ _ cm_lines 0 cm_scalar _ cm_embedded); [|reflexivity|vm_compute; reflexivity|reflexivity].
+  apply (W_other _ _ _ _ _ _ _ _ (split_lines cm_value) 2 cm_embedded (Some cm_scalar) cm_inner [] []); [|left; reflexivity|reflexivity|intros x []].
+  apply W_hole.
+Qed.
